@@ -248,28 +248,38 @@ def _run(scn, log: EventLog, stats: Stats):
                 stats.probe("step-rejected-by-builder")
                 log.emit("sim", "builder-reject", {"upto": upto, "exc": type(ex).__name__})
                 break
-            # totality of the ordering this step relies on (checked on the baseline input of the step)
+            # totality of the ordering this step relies on, judged per backend on that backend's own input to the
+            # step (backends may legitimately disagree on values - that is C01/C03/C16 - and then on totality)
             need = W.step_needs_total_order(st)
-            order_oracle_ok = False
+            order_ok: Dict[str, bool] = {}
             if need is not None or st["t"] == "order_rows":
-                inp = prev_base.get("pandas")
-                if upto == 1:
-                    inp = canon_free_rows(base_env.pandas_inputs()[pipe["src"]])
-                if inp is None:
-                    stats.probe("totality-unknown")
+                for b in BACKENDS:
+                    if not alive[b]:
+                        continue
+                    if upto == 1:
+                        try:
+                            inp = ordered_rows(evaluate(descrs[pipe["src"]], base_env, b))
+                        except Exception:
+                            inp = None
+                    else:
+                        inp = prev_base.get(b)
+                    if inp is None:
+                        alive[b] = False
+                        stats.probe("totality-unknown:" + b)
+                        continue
+                    icol, irows = inp
+                    if need is not None:
+                        why = _total(irows, icol, need[0], need[1])
+                        if why is not None:
+                            alive[b] = False
+                            stats.probe("not-total:" + why)
+                            continue
+                        order_ok[b] = True
+                    else:
+                        why = _total(irows, icol, [], [c for c in st["cols"]])
+                        order_ok[b] = why is None or why == "ties"
+                if not any(alive.values()):
                     break
-                icol, irows = inp
-                if need is not None:
-                    why = _total(irows, icol, need[0], need[1])
-                    if why is not None:
-                        stats.probe("not-total:" + why)
-                        break
-                    order_oracle_ok = True
-                else:
-                    why = _total(irows, icol, [], [c for c in st["cols"]])
-                    order_oracle_ok = why is None or why == "ties"
-                    if why == "null-in-order-columns" or why == "columns-missing":
-                        order_oracle_ok = False
             for b in BACKENDS:
                 if not alive[b]:
                     continue
@@ -303,14 +313,14 @@ def _run(scn, log: EventLog, stats: Stats):
                     results.append((f"schedule{si}", c2, r2))
                     stats.probe("schedule-checked:" + b)
                 # oracle 2
-                if st["t"] == "order_rows" and order_oracle_ok and (upto == 1 or b in prev_base):
+                if st["t"] == "order_rows" and order_ok.get(b) and (upto == 1 or b in prev_base):
                     pcols, prows = prev_base[b] if upto > 1 else ordered_rows(evaluate(descrs[pipe["src"]], base_env, b))
                     for tag, c2, r2 in results:
                         _check_order(st, pcols, prows, c2, r2, b, tag, upto, stats)
                 prev_base[b] = (bcols, brows)
             if st["t"] == "extend" and st.get("order_by"):
                 stats.probe("ordered-window-checked")
-            if st["t"] == "order_rows" and st.get("limit") is not None and order_oracle_ok:
+            if st["t"] == "order_rows" and st.get("limit") is not None and any(order_ok.values()):
                 stats.probe("limit-checked")
             stats.state({"upto": upto, "alive": [b for b in BACKENDS if alive[b]]})
             if not any(alive.values()):
